@@ -31,6 +31,29 @@ pub struct JobSpec {
 	pub hold_clone: bool,
 	/// queue a run_async(sleep) of this many ms before the quit
 	pub queue_sleep: u16,
+	/// spawn hook: 0 none, 1 adds an environment variable, 2 replaces the inner command object by a fresh one
+	/// (the same helper run through `/bin/sh -c 'exec "$0" "$@"'`, as a launcher wrapper would)
+	#[serde(default)]
+	pub hook: u8,
+}
+
+fn install_hook(job: &Job, spec: &JobSpec, cmd: &Arc<Command>) {
+	match spec.hook % 3 {
+		1 => {
+			job.set_spawn_hook(|command, _| {
+				command.command_mut().env("VERIF_HOOKED", "1");
+			});
+		}
+		2 => {
+			let Program::Exec { prog, args } = cmd.program.clone() else { return };
+			job.set_spawn_hook(move |command, _| {
+				let mut fresh = tokio::process::Command::new("/bin/sh");
+				fresh.arg("-c").arg("exec \"$0\" \"$@\"").arg(&prog).args(&args).env("VERIF_HOOKED", "2");
+				*command.command_mut() = fresh;
+			});
+		}
+		_ => {}
+	}
 }
 
 #[derive(Clone, Debug, Serialize, Deserialize)]
@@ -138,6 +161,9 @@ fn phase_event(k: u32) -> Event {
 
 pub fn run(c: &C08Case) -> Outcome {
 	let mut o = Outcome::pass();
+	if c.jobs.iter().any(|j| j.hook % 3 == 2 && j.state % 6 != 0) {
+		o.label("hook-replaces-command");
+	}
 	let logs = Logs::new("vh-c08-");
 	let rt = tokio::runtime::Builder::new_multi_thread().worker_threads(if c.spread { 4 } else { 2 }).enable_all().build().unwrap();
 	let held: Arc<Mutex<Vec<Job>>> = Arc::new(Mutex::new(Vec::new()));
@@ -164,6 +190,7 @@ pub fn run(c: &C08Case) -> Outcome {
 					let i = (phase - 10) as usize;
 					if let Some(s) = specs.get(i) {
 						let (_, job) = action.create_job(cmds[i].clone());
+						install_hook(&job, s, &cmds[i]);
 						if s.state % 6 != 0 {
 							job.start();
 						}
@@ -176,6 +203,7 @@ pub fn run(c: &C08Case) -> Outcome {
 				1 => {
 					for (i, s) in specs.iter().enumerate() {
 						let (_, job) = action.create_job(cmds[i].clone());
+						install_hook(&job, s, &cmds[i]);
 						if s.state % 6 != 0 {
 							job.start();
 						}
@@ -367,12 +395,13 @@ pub fn run(c: &C08Case) -> Outcome {
 }
 
 fn strategy() -> BoxedStrategy<C08Case> {
-	let job = (0u8..3, 0u8..4, 0u8..6, proptest::bool::weighted(0.3), prop_oneof![3 => Just(0u16), 1 => 20u16..200]).prop_map(|(wrap, cmd, state, hold_clone, queue_sleep)| JobSpec {
+	let job = (0u8..3, 0u8..4, 0u8..6, proptest::bool::weighted(0.3), prop_oneof![3 => Just(0u16), 1 => 20u16..200], prop_oneof![2 => Just(0u8), 1 => Just(1u8), 1 => Just(2u8)]).prop_map(|(wrap, cmd, state, hold_clone, queue_sleep, hook)| JobSpec {
 		wrap,
 		cmd,
 		state,
 		hold_clone,
 		queue_sleep,
+		hook,
 	});
 	let general = (proptest::collection::vec(job, 0..5), proptest::option::weighted(0.6, prop_oneof![Just(0u16), Just(100), Just(400), Just(900)]), proptest::bool::weighted(0.25))
 		.prop_map(|(jobs, graceful, same_action)| {
@@ -382,14 +411,14 @@ fn strategy() -> BoxedStrategy<C08Case> {
 	// several jobs that all need their full grace period: the periods must run concurrently
 	let slow = (proptest::collection::vec((0u8..3, prop_oneof![Just(1u8), Just(3)], prop_oneof![3 => Just(1u8), 1 => Just(3u8)], any::<bool>()), 2..5), prop_oneof![Just(400u16), Just(900)])
 		.prop_map(|(js, g)| C08Case {
-			jobs: js.into_iter().map(|(wrap, cmd, state, hold_clone)| JobSpec { wrap, cmd, state, hold_clone, queue_sleep: 0 }).collect(),
+			jobs: js.into_iter().map(|(wrap, cmd, state, hold_clone)| JobSpec { wrap, cmd, state, hold_clone, queue_sleep: 0, hook: wrap % 3 }).collect(),
 			graceful: Some(g),
 			same_action: false,
 			spread: g == 900,
 		});
 	// many jobs, each created in an action of its own on a 4-worker runtime, clones held elsewhere, graceful quit
 	let many = (proptest::collection::vec((0u8..3, 0u8..2, any::<bool>()), 5..9), prop_oneof![Just(100u16), Just(400)]).prop_map(|(js, g)| C08Case {
-		jobs: js.into_iter().map(|(wrap, cmd, hold_clone)| JobSpec { wrap, cmd, state: 1, hold_clone, queue_sleep: 0 }).collect(),
+		jobs: js.into_iter().map(|(wrap, cmd, hold_clone)| JobSpec { wrap, cmd, state: 1, hold_clone, queue_sleep: 0, hook: cmd % 3 }).collect(),
 		graceful: Some(g),
 		same_action: false,
 		spread: true,
